@@ -43,6 +43,14 @@ def main(tier: str) -> int:
     try:
         def jobs1(pool1):
             pids = [q for q in pool1.map("mc.corpus", "pids_job", [tier])[0] if not q.endswith("_f64")]
+            if tier == "quick":
+                # one unit per registered component (the first single-float-input testcase of each plugin / example);
+                # thorough takes every unit.  Whether a program is a unit is decided by the exporter job.
+                per_component: Dict[str, List[str]] = {}
+                for q in pids:
+                    per_component.setdefault("/".join(q.split("/")[:2]), []).append(q)
+                pids = [q for qs in per_component.values() for q in qs[:2]]
+                run.cap("quick: at most the first two testcases of every component are tried as units")
             return [{"pid": q, "out_dir": d, "transform": t} for q in pids for t in ts]
 
         units = set()
